@@ -224,6 +224,9 @@ def compile_outcome(paths, codec, adbc, ne, cache_dir):
     return {'st': 'ok', 'map': map_id(m)}, m
 
 
+OPENED = []     # diskcache.Cache objects created in this (child) process
+
+
 class EventLog(object):
     """Append-only event file written with writev (a syscall outside the injected set), one JSON
     object per line, so that everything logged before a SIGKILL survives."""
@@ -261,6 +264,7 @@ def install_wrappers(log, kill_marker):
             def w_init(self, *a, **k):
                 mark('open_begin')
                 r = o_init(self, *a, **k)
+                OPENED.append(self)
                 mark('open_end')
                 return r
             C.__init__ = w_init
@@ -345,6 +349,8 @@ def child_body(paths, codec, adbc, ne, cache_dir, evpath, kill_marker, gate, nor
     (collect the diskcache object: its sqlite connection closes and the WAL is checkpointed into
     cache.db); otherwise leave abruptly, as os._exit / a crash after the call would."""
     try:
+        import gc
+        gc.freeze()       # do not let collections walk (and copy) the heap inherited from the driver
         try:
             resource.setrlimit(resource.RLIMIT_AS, (4 << 30, 4 << 30))
             # a call that spins is cut by its CPU time (SIGXCPU), one that sleeps by the wall clock
@@ -362,8 +368,11 @@ def child_body(paths, codec, adbc, ne, cache_dir, evpath, kill_marker, gate, nor
         mark('return')
         log.put({'op': 'result', 'out': out, 'map': m or {}})
         if normal_exit:
-            import gc
-            gc.collect()
+            for c in OPENED:          # what interpreter finalisation does: the sqlite connections close
+                try:
+                    c.close()
+                except BaseException:  # noqa
+                    pass
     except BaseException as e:  # noqa
         try:
             EventLog(evpath).put({'op': 'result', 'out': {'st': 'exc', 'cls': 'DriverChild:' + type(e).__name__,
@@ -487,6 +496,11 @@ def run_child(paths, codec, adbc, ne, cache_dir, evpath, kill=None, trace_to=Non
 
 class Replayer(object):
     def __init__(self, root, seed):
+        import asn1tools  # noqa: imported once here, so that the forked children do not pay for it
+        try:
+            import diskcache  # noqa
+        except ImportError:
+            pass
         self.root = root
         self.rng = random.Random(seed)
         self.fresh_memo = {}
